@@ -90,6 +90,10 @@ class Case:
         self.methods = self.world["methods"]
         self.midx = {m["name"]: i for i, m in enumerate(self.methods)}
         self.ems = []      # g -> dict with location indices
+        self.gidx, self.cidx = {}, {}
+        # site ids may be any strings (unsorted integers, "s10", "a_2", …): the model numbers them 1, 2, …
+        # in infrastructure order
+        self.sidx = {s["id"]: k + 1 for k, s in enumerate(self.world["sites"])}
         self.lines = []
         self._build(ev)
 
@@ -107,11 +111,14 @@ class Case:
                     raise Unsupported("two repair cost draws for one emission")
                 rcost[e[2]] = e[3]
         for s in w["sites"]:
-            sid = int(s["id"])
+            sid = self.sidx[s["id"]]
             if s["latest_tag"] != 0:
                 raise Unsupported("site latest tagging date is not the start date")
             groups = []
             for gi, g in enumerate(s["eqgs"]):
+                self.gidx[(s["id"], g["id"])] = gi
+                for ci0, c0 in enumerate(g["comps"]):
+                    self.cidx[(s["id"], g["id"], c0["id"])] = ci0
                 groups.append(f"[{gi},{L(range(len(g['comps'])))}]")
                 for ci, c in enumerate(g["comps"]):
                     for k, src in enumerate(c["sources"]):
@@ -158,18 +165,18 @@ class Case:
             wd = Fraction(m["max_work_hours"])
             if wd.denominator != 1:
                 raise Unsupported("fractional max_workday")
-            lines.append("method %s %d %d %d %d %d %d %d %d %s %d %d %d %d" % (
+            lines.append("method %s %d %d %d %d %d %d %d %d %s %d %d %d" % (
                 role, fu, int(stationary), m["crews"], max(cap, 0), int(wd), int(m["daylight_sensitive"]), int(m["weather"]),
                 exact_int(cost.get("per_day", 0.0), COST_SCALE, "per_day"),
                 "-" if per_site is None else str(exact_int(per_site, COST_SCALE, "per_site")),
                 exact_int(cost.get("upfront", 0.0), COST_SCALE, "upfront"),
-                exact_int(m["mdl"], RATE_SCALE, "mdl"), 0, m["reporting_delay"]))
+                exact_int(m["mdl"], RATE_SCALE, "mdl"), m["reporting_delay"]))
             if crews != m["crews"]:
                 raise Unsupported("schedule crews differ from method crews")
             for st in sch[5]:
                 site, rs, months, depy, simy, plan, s_time = st
                 lines.append("msite %d %d %d %d %d %s %s %s %s" % (
-                    i, int(site), int(m["site_time"][site]) if not stationary else 0,
+                    i, self.sidx[site], int(m["site_time"][site]) if not stationary else 0,
                     exact_int(m["site_cost"][site], COST_SCALE, "site cost"), rs, L(months), L(depy), L(simy), LL(plan)))
                 if m["is_follow_up"] and rs != 0:
                     raise Unsupported("follow-up method with its own survey frequency")
@@ -184,7 +191,9 @@ class Case:
                     rat(Fraction(f["small_window_threshold"] or 0) * unit), rat(Fraction(f["large_window_threshold"] or 0) * unit)))
         # calendar and daylight
         start = date(*cfg["start"])
-        lines.append("dates " + LL([[d.year, d.month, d.day] for d in (start + timedelta(days=k) for k in range(self.N))]))
+        self.cal_line = len(lines)
+        self.cal_expected = "ok " + LL([[d.year, d.month, d.day] for d in (start + timedelta(days=k) for k in range(self.N))])
+        lines.append("start %d %d %d %d" % (start.year, start.month, start.day, self.N))
         dl = {}
         for e in ev:
             if e[0] == "dl":
@@ -196,6 +205,8 @@ class Case:
         lines.append("daylight " + L(mins))
         # random outcomes
         rolls, travel, unwork = {}, {}, {}
+        shifts = []
+        self._nz = 0
         pending = {}
         for e in ev:
             t = e[0]
@@ -211,7 +222,7 @@ class Case:
             elif t == "ttime":
                 pending[e[2]] = e[3]
             elif t == "survey":
-                d, meth, site = e[1], e[2], int(e[3])
+                d, meth, site = e[1], e[2], self.sidx[e[3]]
                 if meth in pending:
                     tt = Fraction(pending.pop(meth))
                     if tt.denominator != 1:
@@ -219,22 +230,51 @@ class Case:
                     travel.setdefault((d, self.midx[meth]), []).append([site, int(tt)])
             elif t == "wx":
                 if not e[4]:
-                    unwork.setdefault((e[1], self.midx[e[2]]), []).append(int(e[3]))
-            elif t == "quant":
-                if e[2] != e[3]:
-                    raise Unsupported("non-zero quantification error")
+                    unwork.setdefault((e[1], self.midx[e[2]]), []).append(self.sidx[e[3]])
+            elif t == "qrep":
+                _, d, meth, site, units = e
+                row = []
+                for g, c, tr_, ms_ in units:
+                    k = self.shift_of(tr_, ms_)
+                    if k is None:
+                        continue
+                    self._nz += 1 if k != 0 else 0
+                    if g is None:
+                        row.append([0, 0, k])
+                    else:
+                        row.append([self.gidx[(site, g)], self.cidx[(site, g, c)], k])
+                if row:
+                    shifts.append(f"shift {d} {self.midx[meth]} {self.sidx[site]} " + LL(row))
+            elif t == "qrep-error":
+                raise Unsupported("qrep wrapper failed: " + str(e[1]))
         for (d, m), r in sorted(rolls.items()):
             lines.append(f"rolls {d} {m} " + LL([[g, v[0], v[1]] for g, v in sorted(r.items())]))
         for (d, m), r in sorted(travel.items()):
             lines.append(f"travel {d} {m} " + LL(r))
         for (d, m), r in sorted(unwork.items()):
             lines.append(f"unworkable {d} {m} " + L(r))
+        lines += shifts
+        self.n_shifts = self._nz
         self.n_rolls = sum(len(r) for r in rolls.values())
         self.head = len(lines)
         lines.append(f"run {self.N}")
         lines += [f"row {k}" for k in range(self.N)]
         lines += [f"rec {g}" for g in range(len(self.ems))]
         self.lines = lines
+
+    @staticmethod
+    def shift_of(true_rate, measured):
+        """the integer quantification shift (percent) with measured = max(true * (1 + k/100), 0) exactly;
+        None when nothing was measured (true rate 0 and measured 0: the unit was not detected or is empty)"""
+        t, m = Fraction(true_rate), Fraction(measured)
+        if m == 0:
+            return None if t == 0 else -100
+        if t == 0:
+            raise Unsupported("measured rate without a true rate")
+        k = (m / t - 1) * 100
+        if k.denominator != 1:
+            raise Unsupported(f"quantification shift {float(k)} is not an integer percentage")
+        return int(k)
 
     def check_pickle(self):
         """the scenario the run worked on == the pickled scenario of the run"""
@@ -248,6 +288,7 @@ class Case:
         bad = [(l, o) for l, o in zip(self.lines[:self.head + 1], out[:self.head + 1]) if not o.startswith("ok")]
         if bad:
             raise RuntimeError(f"driver rejected {bad[:3]}")
+        self.calendar_ok = out[self.cal_line] == self.cal_expected
         rows = out[self.head + 1:self.head + 1 + self.N]
         recs = out[self.head + 1 + self.N:]
         return [self.parse_row(r) for r in rows], [self.parse_rec(r) for r in recs]
@@ -281,6 +322,8 @@ class Case:
         """list of (kind, where, model, impl) differences; [] = full agreement"""
         diffs = []
         res = self.res
+        if not getattr(self, "calendar_ok", True):
+            diffs.append(("calendar", None, "dateOf", "datetime"))
         ts = res.timeseries(self.prog, self.sim)
         if ts is None or len(ts) != self.N:
             return [("timeseries-length", None, self.N, None if ts is None else len(ts))]
